@@ -242,7 +242,7 @@ fn sections(cfg: &Cfg) -> Vec<(Sect, u64)> {
         (Sect::Bins, if q { 400 } else { 200_000 }),
         (Sect::Chains, if q { 4_000 } else { 2_000_000 }),
         (Sect::Long, nn * var),
-        (Sect::Lines, all_unary(3).len() as u64 * if q { 160 } else { 1200 }),
+        (Sect::Lines, all_unary(3).len() as u64 * if q { 640 } else { 2400 }),
         (Sect::Late, var * if q { 1 } else { 8 }),
     ]
 }
